@@ -149,6 +149,9 @@ pub fn run(ws: &[&str]) -> String {
         let s = seq.fetch_add(1, std::sync::atomic::Ordering::SeqCst);
         other_log.borrow_mut().push((s, "P".to_string()));
         reqs.borrow_mut().push(req_fingerprint(&r));
+        if !String::from_utf8_lossy(r.body()).ends_with("&zeta=1&alpha=2&mid=3&alpha=4&beta=5&omega=6") {
+            other_log.borrow_mut().push((s, "extras-not-in-the-callers-order".to_string()));
+        }
         let mut p = script_pos.borrow_mut();
         if *p >= script.len() {
             std::panic::panic_any(Exhausted);
@@ -186,7 +189,7 @@ pub fn run(ws: &[&str]) -> String {
     let twice = ws.iter().flat_map(|w| w.bytes()).fold(0xcbf29ce484222325u64, |h, b| (h ^ b as u64).wrapping_mul(0x100000001b3)) >> 27 & 1 == 0;
     let dead_clock = || -> DateTime<Utc> { std::panic::panic_any(Exhausted) };
     let req = if order_bit == 0 {
-        let req = client.exchange_device_access_token(&details);
+        let req = client.exchange_device_access_token(&details).add_extra_param("zeta", "1").add_extra_param("alpha", "2").add_extra_param("mid", "3").add_extra_param("alpha", "4").add_extra_param("beta", "5").add_extra_param("omega", "6");
         let mut req = if twice { req.set_time_fn(dead_clock).set_time_fn(time_fn) } else { req.set_time_fn(time_fn) };
         if let Some(b) = backoff {
             if twice {
@@ -196,7 +199,7 @@ pub fn run(ws: &[&str]) -> String {
         }
         req
     } else {
-        let mut req = client.exchange_device_access_token(&details);
+        let mut req = client.exchange_device_access_token(&details).add_extra_param("zeta", "1").add_extra_param("alpha", "2").add_extra_param("mid", "3").add_extra_param("alpha", "4").add_extra_param("beta", "5").add_extra_param("omega", "6");
         if let Some(b) = backoff {
             if twice {
                 req = req.set_max_backoff_interval(Duration::from_millis(1));
